@@ -23,7 +23,7 @@ DESCR = {
  'C03': ('G (differential)', 'the same texts x all 2^(n-1) chunk compositions x 2 push protocols, stream buffer sizes 1..n+1, cursors, read_to, staj iterators; binary: C07 byte spaces x 23 deliveries; CSV: every string <= 6 chars over 7 characters x 6 option sets x every delivery'),
  'C04': ('V', 'BigNat oracle; Trace_C04 validates bigint arithmetic via identities, conversions digit for digit, literal classes, round-half-even doubles, double print/parse round trips incl. every binary64 exponent x edge significands'),
  'C05': ('G + V', 'ApiOutcome protocol; inputs of all other generators + truncations / substitutions through every decoder / compiler entry point, a CBOR tag family (typed / multi-dimensional arrays, bignums, decimal fractions with boundary arguments), and values x option sets through 12 encoder entry points, under ASan+UBSan+LSan with a CPU-time watchdog (non-termination); sampled outcome traces validated by Trace_C05'),
- 'C06': ('V', 'BinModel universe x 4 formats x routes; Trace_C06: the reference decoder reads the output completely to the documented image and the library reads it back; stringref family; long-length family (BinHeads: header forms at 2^8 / 2^15 / 2^16, Trace_C06big); semantic-tag family (BinTags / Trace_C06tags: bignum, decimal fraction, bigfloat, epoch tags, base-N hints x 4 formats, documented image per format)'),
+ 'C06': ('V', 'BinModel universe x 4 formats x routes; Trace_C06: the reference decoder reads the output completely to the documented image and the library reads it back; stringref family; long-length family (BinHeads: header forms at 2^8 / 2^15 / 2^16, Trace_C06big); string references next to typed arrays and encoder reuse after reset (Trace_C06pta); semantic-tag family (BinTags / Trace_C06tags: bignum, decimal fraction, bigfloat, epoch tags, base-N hints x 4 formats, documented image per format)'),
  'C07': ('G', 'Cbor / Msgpack / Ubjson / Bson reference decoders: every byte string with 2 exhaustive leading bytes + representative later bytes, token sequences, length-boundary representatives, long-length header forms (exact / short / bad length field), [tag(item), sibling] for every tag head x content kind (a tag applies to one item; non-transforming tags are transparent); verdict and value predicted'),
  'C08': ('V', 'Events PDA: every complete event sequence <= MaxEv x 5 encoders (declared lengths respected / violated); Trace_C08 re-decodes the output with the reference decoders / JsonText; transcoding of all accepted C07 inputs; tagged-event family (Trace_C08tags: every scalar event x semantic tag x 5 encoders, output must be well-formed in the target format or an error reported)'),
  'C09': ('G per transition + V', 'Container: every edge reachable within MaxHist operations (VIEW + ACTION_CONSTRAINT) incl. erase by iterator / iterator range on arrays and objects, hinted overloads at every hint position, json and ojson; ValueLaws over 59 x 59 descriptors (compare is a total order consistent with ==, hash, swap)'),
